@@ -37,7 +37,7 @@ Section Proposer.
     destruct (compute_shuffled_index E _ _ seed) as [j|]; [|discriminate].
     destruct (nthN idx j) as [cand|] eqn:Hc; [|discriminate].
     destruct (_ <=? _).
-    - injection H as <-. unfold nthN in Hc. eapply nth_error_In. exact Hc.
+    - injection H as <-. rewrite nthN_eq in Hc. eapply nth_error_In. exact Hc.
     - eapply IH. exact H.
   Qed.
   Theorem proposer_in_range st p : get_beacon_proposer_index E st = Some p -> p < N.of_nat (length (validators st)).
@@ -65,7 +65,7 @@ Section Proposer.
   Lemma eff_bal_frame st1 st2 e i :
     map (pview e) (validators st1) = map (pview e) (validators st2) -> eff_bal st1 i = eff_bal st2 i.
   Proof.
-    intros H. unfold eff_bal, nthN.
+    intros H. unfold eff_bal; rewrite !nthN_eq.
     assert (Hn : nth_error (map (pview e) (validators st1)) (N.to_nat i) = nth_error (map (pview e) (validators st2)) (N.to_nat i))
       by (rewrite H; reflexivity).
     rewrite !nth_error_map in Hn.
